@@ -16,10 +16,11 @@ N = {"quick": 150, "thorough": 3000}
 
 def run(chk):
     chk.build(["Props/C06.vo"])
+    deeper = bool(core.hand_models_changed(chk))
     rng = core.Rng(chk.seed * 7919 + 6)
     total_dis = 0
     for kind in S.KINDS:
-        cases = S.generate(rng, kind, N[chk.tier])
+        cases = S.generate(rng, kind, N[chk.tier] * (5 if deeper else 1))
         ir = core.ImplRunner("corrupt", per_case_timeout=20.0)
         try:
             ires = ir.run(cases)
